@@ -2075,7 +2075,7 @@ func structuralTreeWalk(comp []*ssa.Function) bool {
 		// walk may be handed several pieces of one node)
 		var nodes []*ssa.Parameter
 		for _, pr := range f.Params {
-			if isASTish(pr.Type()) {
+			if isASTish(pr.Type()) || isASTList(pr.Type()) {
 				nodes = append(nodes, pr)
 			}
 		}
@@ -2104,7 +2104,7 @@ func structuralTreeWalk(comp []*ssa.Function) bool {
 					callee = cal
 					// the callee's node parameters
 					for i, pr := range cal.Params {
-						if isASTish(pr.Type()) && i < len(cc.Args) {
+						if (isASTish(pr.Type()) || isASTList(pr.Type())) && i < len(cc.Args) {
 							args = append(args, cc.Args[i])
 						}
 					}
@@ -4102,4 +4102,11 @@ func onPathViaList(f *ssa.Function, in map[*ssa.Function]bool) bool {
 		}
 	}
 	return tested && removed && dominates
+}
+
+// isASTList: a slice of syntax nodes (the statements of a block, the elements
+// of a literal handed to a helper as they are).
+func isASTList(t types.Type) bool {
+	sl, ok := t.Underlying().(*types.Slice)
+	return ok && isASTish(sl.Elem())
 }
